@@ -292,7 +292,7 @@ theorem c03_retry_same_history (i : Nat) (s : Sys) (ch : QChan) (ops : List Op)
   intro r1 hr1 r2 hr2 he
   obtain ⟨p1, hp1, c1, f1, l1⟩ := c03_receipts_backed i s ch ops hseg hch h1 h2 r1 hr1
   obtain ⟨p2, hp2, c2, f2, l2⟩ := c03_receipts_backed i s ch ops hseg hch h1 h2 r2 hr2
-  have : p1 = p2 := pairwise_cmd_eq _ hu p1 hp1 p2 hp2 (by rw [c1, c2, he])
+  have : p1 = p2 := pairwise_cmd_eq _ hu.2 p1 hp1 p2 hp2 (by rw [c1, c2, he])
   subst this
   omega
 
@@ -302,7 +302,7 @@ end WK.C03
 namespace WK.C03
 open WK WK.Repl
 
-theorem cmdUniq_empty : CmdUniq Store.empty := List.Pairwise.nil
+theorem cmdUniq_empty : CmdUniq Store.empty := ⟨rfl, List.Pairwise.nil⟩
 
 theorem allUniq_init (n q cap : Nat) (st : Bool) : ∀ v, CmdUniq (({ Sys.init n q cap with started := st } : Sys).storeOf v) := by
   intro v
@@ -310,29 +310,42 @@ theorem allUniq_init (n q cap : Nat) (st : Bool) : ∀ v, CmdUniq (({ Sys.init n
   by_cases hv : v = 0
   · simp [hv]; exact cmdUniq_empty
   · simp only [hv, if_false]
-    cases h : (mkNodes n)[v - 1]? with
+    cases h : (mkNodes false n)[v - 1]? with
     | none => simp [Sys.init, h]; exact cmdUniq_empty
-    | some nd => simp [Sys.init, h]; rw [C02.node?_mkNodes_store n (v - 1) nd h]; exact cmdUniq_empty
+    | some nd => simp [Sys.init, h]; rw [C02.node?_mkNodes_store false n (v - 1) nd h]; exact cmdUniq_empty
 
-theorem cmdUniq_step (s : Sys) (op : Op) (h : ∀ v, CmdUniq (s.storeOf v)) : ∀ v, CmdUniq ((step s op).1.storeOf v) := by
-  by_cases hc : ∃ n q c, op = .cfg n q c
-  · obtain ⟨n, q, c, rfl⟩ := hc
+/-- an op that does not select the server-allocated / unkeyed MessageDB store kind -/
+def keyed : Op → Bool
+  | .cfg _ _ _ fr => !fr
+  | _ => true
+
+theorem cmdUniq_step (s : Sys) (op : Op) (hk : keyed op = true) (h : ∀ v, CmdUniq (s.storeOf v)) :
+    ∀ v, CmdUniq ((step s op).1.storeOf v) := by
+  by_cases hc : ∃ n q c fr, op = .cfg n q c fr
+  · obtain ⟨n, q, c, fr, rfl⟩ := hc
+    simp only [keyed, Bool.not_eq_true'] at hk
+    subst hk
     simp only [step]
     split
     · exact h
     · exact allUniq_init n q c true
-  · have hne : ∀ n q c, op ≠ .cfg n q c := fun n q c e => hc ⟨n, q, c, e⟩
+  · have hne : ∀ n q c fr, op ≠ .cfg n q c fr := fun n q c fr e => hc ⟨n, q, c, fr, e⟩
     rw [C02.step_started s op hne]
     intro v
     exact step_stores uniqRel_rel { s with started := true } op rfl v (h v)
 
-/-- **c03_cmd_uniq** — in every reachable state no replica log stores two proposals of one command -/
-theorem c03_cmd_uniq (ops : List Op) (v : Nat) : CmdUniq ((Repl.runS Sys.default ops).storeOf v) := by
+/-- **c03_cmd_uniq** — in every reachable state no replica log stores two proposals of one command,
+    for every store kind except MessageDB fed with server-allocated, unkeyed records (`keyed`), where
+    it is false (c03_unkeyed_counterexample). -/
+theorem c03_cmd_uniq (ops : List Op) (hk : ∀ op ∈ ops, keyed op = true) (v : Nat) :
+    CmdUniq ((Repl.runS Sys.default ops).storeOf v) := by
   suffices h : ∀ s, (∀ v, CmdUniq (s.storeOf v)) → ∀ v, CmdUniq ((Repl.runS s ops).storeOf v) from
     h _ (allUniq_init 3 2 2 false) v
   induction ops with
   | nil => intro s h; exact h
-  | cons op ops ih => intro s h; exact ih _ (cmdUniq_step s op h)
+  | cons op ops ih =>
+    intro s h
+    exact ih (fun o ho => hk o (List.mem_cons_of_mem _ ho)) _ (cmdUniq_step s op (hk op List.mem_cons_self) h)
 
 theorem runS_append (s : Sys) (a b : List Op) : Repl.runS s (a ++ b) = Repl.runS (Repl.runS s a) b := by
   unfold Repl.runS; rw [List.foldl_append]
@@ -342,7 +355,8 @@ theorem runS_append (s : Sys) (a b : List Op) : Repl.runS s (a ++ b) = Repl.runS
     continuation without install / reset of `i`: receipts of different commands are disjoint, receipts
     of one command are equal.  No further hypothesis. -/
 theorem c03_history_reachable (i : Nat) (pre ops : List Op) (ch : QChan)
-    (hseg : ∀ op ∈ ops, segOp i op = true) (hch : chanOf (Repl.runS Sys.default pre) i = some (some ch))
+    (hseg : ∀ op ∈ ops, segOp i op = true) (hkey : ∀ op ∈ pre, keyed op = true)
+    (hch : chanOf (Repl.runS Sys.default pre) i = some (some ch))
     (h1 : ch.retained = []) (h2 : ch.pending = none) :
     ∀ r1 ∈ receiptsOn i (Repl.runS Sys.default pre) ops, ∀ r2 ∈ receiptsOn i (Repl.runS Sys.default pre) ops,
       (r1.cmd ≠ r2.cmd → r1.last < r2.first ∨ r2.last < r1.first) ∧
@@ -351,7 +365,12 @@ theorem c03_history_reachable (i : Nat) (pre ops : List Op) (ch : QChan)
   have hchain : ChainP ((Repl.runS (Repl.runS Sys.default pre) ops).storeOf i).props := by
     rw [← runS_append]; exact (C02.c02_store_inv (pre ++ ops) i).chain
   have hu : CmdUniq ((Repl.runS (Repl.runS Sys.default pre) ops).storeOf i) := by
-    rw [← runS_append]; exact c03_cmd_uniq (pre ++ ops) i
+    rw [← runS_append]
+    refine c03_cmd_uniq (pre ++ ops) (fun o ho => ?_) i
+    rcases List.mem_append.mp ho with h | h
+    · exact hkey o h
+    · have := hseg o h
+      cases o <;> simp_all [segOp, keyed]
   exact ⟨c03_disjoint i _ ch ops hseg hch h1 h2 hchain r1 hr1 r2 hr2,
          c03_retry_same_history i _ ch ops hseg hch h1 h2 hu r1 hr1 r2 hr2⟩
 
@@ -364,5 +383,28 @@ example :
     (∀ op ∈ ops, segOp 1 op = true) ∧
     (receiptsOn 1 (Repl.runS Sys.default pre) ops).map (fun r => (r.first, r.last)) = [(1, 2), (3, 3), (4, 4), (1, 2)] := by
   decide
+
+end WK.C03
+
+namespace WK.C03
+open WK WK.Repl
+
+/-- cache cap 1, MessageDB stores with server-allocated unkeyed records: command 1 is acknowledged at
+    [1,2], evicted by command 2, and its exact retry is sealed at the log end where
+    `prepareExactAppendRecordsLocked` (sequencedFresh) skips the command-index check -/
+def unkeyedWitness : List Op :=
+  [.cfg 3 2 1 true,
+   .install 1 ⟨⟨1, 1, 1⟩, 2, false⟩ [.all, .all, .all] [.D, .D, .D],
+   .commit 1 ⟨1, 1, 1⟩ 1 2 0 [.D, .D, .D],
+   .commit 1 ⟨1, 1, 1⟩ 2 1 0 [.D, .D, .D],
+   .commit 1 ⟨1, 1, 1⟩ 1 2 0 [.D, .D, .D]]
+
+/-- **c03_unkeyed_counterexample** — retry stability is FALSE for that store kind, on the model as on
+    the code (corpus/C03/unkeyed-evicted.ops): the exact retry of the evicted command is stored again
+    and acknowledged at [4,5] instead of [1,2]. -/
+theorem c03_unkeyed_counterexample :
+    (receiptsOn 1 Sys.default unkeyedWitness).map (fun r => (r.cmd, r.first, r.last)) =
+      [(.biz 1, 1, 2), (.biz 2, 3, 3), (.biz 1, 4, 5)] ∧
+    ((Repl.runS Sys.default unkeyedWitness).storeOf 1).leo = 5 := by decide
 
 end WK.C03
